@@ -588,11 +588,18 @@ def env_side(ck, an):
                  "the event becomes _last_event after it has been dispatched", "_last_event is not set to the event after the dispatch", construct="self._last_event = event")
     # new-date notification
     nd = [c for c in walk_function(fa.f.node) if isinstance(c, ast.Call) and fa.sym.canon(c.func) == "EventNewDate"]
-    sent = [c for c in nd if isinstance(getattr(c, "_parent", None), ast.Call) and any(g.short == "TradingEnv.notify" for g in an.res.resolve_call(c._parent, fa.f)[0])]
+    # notify(...) calls whose argument is (through temporaries) one of those constructions
+    sent_pairs = []
+    for nc in walk_function(fa.f.node):
+        if isinstance(nc, ast.Call) and nc.args and any(g.short == "TradingEnv.notify" for g in an.res.resolve_call(nc, fa.f)[0]):
+            ctor = deref(fa, nc.args[0])[0]
+            if any(ctor is c for c in nd):
+                sent_pairs.append((ctor, nc))
+    sent = [c for c, _ in sent_pairs]
+    notify_of = {id(c): n_ for c, n_ in sent_pairs}
     ck.check(len(sent) == 1, "PATHCOUNT", "S8.newdate-notified", subj, fa.f.loc, "a date change is announced with one EventNewDate through notify", f"{len(sent)} EventNewDate notifications in notify", construct="self.notify(EventNewDate(...))")
     if sent and disp:
-        ord_before(ck, fa, "S8.newdate-before-event", [enclosing_stmt(sent[0]).value] if False else [sent[0]._parent], [disp[0]], "the new-date notification", "the dispatch of the first event of the date") if False else None
-        okn = fa.reachable_from(sent[0]._parent, disp[0]) and not fa.reachable_from(disp[0], sent[0]._parent)
+        okn = fa.reachable_from(notify_of[id(sent[0])], disp[0]) and not fa.reachable_from(disp[0], notify_of[id(sent[0])])
         ck.check(okn, "ORD", "S8.newdate-before-event", subj, fa.loc(sent[0]), "the new-date notification precedes the dispatch of the first event of the new date", "EventNewDate is sent after the event", construct=stmt_text(sent[0]))
     for c in nd:
         a0 = fa.sym.canon(c.args[0]) if c.args else "?"
